@@ -34,7 +34,8 @@ class RegistryFamily(common.Family):
       for _ in range(rng.randrange(2, 8)):
         k = rng.choice(['register', 'refresh', 'refresh', 'refresh_stale',
                         'refresh_future', 'unregister', 'heartbeat_rpc',
-                        'heartbeat_dead_rpc', 'is_alive', 'jump'])
+                        'heartbeat_dead_rpc', 'is_alive', 'is_alive', 'jump',
+                        'call_start', 'call_done', 'call_done'])
         op = {'op': k, 'addr': rng.choice(['a', 'a', 'b'])}
         if k == 'jump':
           op['dt'] = rng.choice([1.0, 50.0, 500.0])
@@ -47,6 +48,7 @@ class RegistryFamily(common.Family):
   def drive(self, cfg, sim):
     import threading
     import time
+    from concurrent import futures
     from ml_metrics._src.chainables import courier_server
     from ml_metrics._src.utils import courier_utils
     reg = courier_utils.worker_registry()
@@ -76,6 +78,7 @@ class RegistryFamily(common.Family):
           changes[a] = changes.get(a, 0) + 1
       return state['msg']
 
+    inflight = {'a': [], 'b': []}   # calls issued to the worker, not yet answered
     pending_register = {}   # addr -> number of register-type ops in flight
     changes = {}            # addr -> number of value changes seen so far
     sim.invariants.append(invariant)
@@ -114,6 +117,19 @@ class RegistryFamily(common.Family):
           # only calls during which the recorded heartbeat never changed
           if changes.get(a, 0) == c0:
             hist.append([a, alive, t0, t1, h0, h1])
+        elif k == 'call_start':
+          # a call (or ping) to the worker that is still in flight
+          f = futures.Future()
+          inflight[a].append(f)
+          clients[a]._pendings.append(  # pylint: disable=protected-access
+              courier_utils.StateWithTime(f, now))
+        elif k == 'call_done':
+          # ... and its (possibly late) successful completion
+          if inflight[a]:
+            f = inflight[a].pop(0)
+            if not f.done():
+              f.set_result(None)
+              sim.count('probe:late_completion_of_a_call')
         elif k == 'jump':
           sim.count('fault:clock_jump')
           sim.advance(op['dt'])
